@@ -13,6 +13,7 @@
    (Gen/Constants.v, regenerated at every run) only have to pass C10_block_sizes_wf. *)
 From Coq Require Import ZArith QArith List Bool Lia.
 From Pandora Require Import Lib.Blocks Model.Filters Spec.Filters Proofs.FiltersP Gen.Constants.
+From Pandora Require Lib.BlockSkeleton Proofs.SkelFiltersP Gen.BlockLoops.
 Import ListNotations.
 Open Scope Z_scope.
 
@@ -20,6 +21,55 @@ Open Scope Z_scope.
    the regenerated constants *)
 Theorem C10_block_sizes_wf : 1 <= median_block /\ 1 <= bilateral_block.
 Proof. split; vm_compute; discriminate. Qed.
+
+(* per-run obligations on the regenerated SKELETONS of the two block loops (Gen/BlockLoops.v, read
+   from MedianFilter.median_filter / BilateralFilter.filter_bilateral by
+   translator/gen_block_loops.py): each is the canonical double block loop that Blocks.loop2 models
+   (Lib/BlockSkeleton.v: where each running offset is initialised and advanced and by what, the
+   slice bounds of the write, the axes, one block size >= 1, the kernel applied to the inner
+   chunk), both offsets start at int(W / 2) for the very W of the sliding_window, the written array
+   is np.copy(a) while the chunks are windows of that same a (NOT of the array being written), and
+   the block size is the constant of Gen/Constants.v *)
+Theorem C10_median_block_loop_skeleton :
+  BlockSkeleton.skeleton_wf BlockLoops.median_filter = true
+  /\ BlockSkeleton.filter_skeleton_ok BlockSkeleton.KNanMedian BlockLoops.median_filter = true
+  /\ BlockSkeleton.sk_B BlockLoops.median_filter = median_block.
+Proof. vm_compute. repeat split; reflexivity. Qed.
+
+Theorem C10_bilateral_block_loop_skeleton :
+  BlockSkeleton.skeleton_wf BlockLoops.filter_bilateral = true
+  /\ BlockSkeleton.filter_skeleton_ok BlockSkeleton.KBilateral BlockLoops.filter_bilateral = true
+  /\ BlockSkeleton.sk_B BlockLoops.filter_bilateral = bilateral_block.
+Proof. vm_compute. repeat split; reflexivity. Qed.
+
+(* the loops of the model ARE the loops read in the source: for every map, filter size w >= 0,
+   image at least as large as the filter, every np.arange stop values and initial environment,
+   median_filter at the code's block size is, pixel by pixel, the re-NaN-ing of what executing the
+   GENERATED skeleton (BlockSkeleton.exec) writes over the copy of the data, the kernel at window
+   (i, j) being the model's nanmedian of that window of the ORIGINAL data *)
+Theorem C10_median_model_loop_is_generated_skeleton : forall w ny nx (data : map2) sy sx env0 r c,
+  0 <= w -> w <= ny -> w <= nx ->
+  median_filter median_block w ny nx data r c
+  = if is_none (data r c) then None
+    else snd (BlockSkeleton.exec (SkelFiltersP.median_kernel data w) w (ny - w + 1) (nx - w + 1)
+                (BlockSkeleton.sk_target 0 BlockLoops.median_filter) BlockLoops.median_filter sy sx (env0, data)) r c.
+Proof.
+  intros. destruct C10_median_block_loop_skeleton as (_ & Hok & <-).
+  apply SkelFiltersP.median_loop_is_skeleton_at; assumption.
+Qed.
+
+Theorem C10_bilateral_model_loop_is_generated_skeleton : forall ny nx sigma gk rk (data : map2) sy sx env0 r c,
+  let win := win_width ny nx sigma in
+  0 <= win ->
+  filter_bilateral bilateral_block ny nx sigma gk rk data r c
+  = if is_none (data r c) then None
+    else snd (BlockSkeleton.exec (SkelFiltersP.bilateral_kernel gk rk data win) win (ny - win + 1) (nx - win + 1)
+                (BlockSkeleton.sk_target 0 BlockLoops.filter_bilateral) BlockLoops.filter_bilateral sy sx
+                (env0, data)) r c.
+Proof.
+  intros. destruct C10_bilateral_block_loop_skeleton as (_ & Hok & <-).
+  apply SkelFiltersP.bilateral_loop_is_skeleton_at; assumption.
+Qed.
 
 Theorem C10_constants :
   msk_pixel_interval_regularized = 2 ^ 11 /\
@@ -263,6 +313,10 @@ Example C10_example_bilateral :
 Proof. split; [reflexivity|]. split; [split; intros; reflexivity | vm_compute; reflexivity]. Qed.
 
 Print Assumptions C10_block_sizes_wf.
+Print Assumptions C10_median_block_loop_skeleton.
+Print Assumptions C10_bilateral_block_loop_skeleton.
+Print Assumptions C10_median_model_loop_is_generated_skeleton.
+Print Assumptions C10_bilateral_model_loop_is_generated_skeleton.
 Print Assumptions C10_constants.
 Print Assumptions C10_window_is_the_neighbourhood.
 Print Assumptions C10_spec_averages_well_defined.
